@@ -53,6 +53,8 @@ pub struct Cfg {
     /// recent poll of a task (all that `Future::poll`'s contract promises): something that keeps
     /// the waker of an earlier poll and wakes that one is not heard.
     pub fresh_wakers: bool,
+    /// The listener creates connections ahead of `accept` and hands them out newest first.
+    pub listener_prepares: bool,
 }
 
 impl Cfg {
@@ -70,6 +72,7 @@ impl Cfg {
             bias: 0,
             log: 0,
             fresh_wakers: false,
+            listener_prepares: false,
         }
     }
 
@@ -96,6 +99,7 @@ impl Cfg {
             bias: t.draw(3) as u8,
             log: [0, 0, 0, 1, 1, 2, 3, 1][t.draw(8)],
             fresh_wakers: t.draw(3) == 2,
+            listener_prepares: t.draw(4) == 3,
         }
     }
 }
@@ -1286,6 +1290,16 @@ impl WriteHalf for PWriteHalf {
 
 pub struct SimListener {
     pub world: World,
+    /// Connections this listener has already created but not yet handed out (a listener with
+    /// pre-opened or pooled connections): `accept` returns them newest first, so the order in
+    /// which connections are accepted is not the order in which they (and their ids) were created.
+    prepared: Vec<(usize, zlink_core::Connection<SimSocket>)>,
+}
+
+impl SimListener {
+    pub fn new(world: World) -> Self {
+        SimListener { world, prepared: Vec::new() }
+    }
 }
 
 impl fmt::Debug for SimListener {
@@ -1317,6 +1331,27 @@ impl Future for AcceptFut<'_> {
             this.done = true;
             let e = w.transport_error(true);
             return Poll::Ready(Err(e));
+        }
+        if w.cfg.listener_prepares && (!this.l.prepared.is_empty() || w.listener.backlog.len() >= 2) {
+            // create connections for everything that is queued, in queue order, then hand them out
+            // newest first
+            let queued: Vec<(usize, usize)> = w.listener.backlog.drain(..).collect();
+            drop(w);
+            for (c2s, s2c) in queued {
+                let conn = zlink_core::Connection::new(W::socket(&world, c2s, s2c));
+                world.borrow_mut().conn_ids.push(conn.id());
+                this.l.prepared.push((c2s, conn));
+            }
+            let (c2s, conn) = this.l.prepared.pop().unwrap();
+            let mut w = world.borrow_mut();
+            w.listener.accepted += 1;
+            w.ev("accept", c2s as u64, 0);
+            w.stat("connections_accepted_in_another_order_than_they_were_created");
+            let sq = w.seq;
+            w.set_changes.push(sq);
+            w.accepts.push((sq, c2s));
+            this.done = true;
+            return Poll::Ready(Ok(conn));
         }
         if !w.listener.backlog.is_empty() {
             if w.cfg.accept_pending_despite_backlog && w.tape.chance(1, 4) {
